@@ -11,14 +11,21 @@ class LostAnchor(Exception):
     """The real item (or a rewrite/insert anchor) could not be found exactly as declared."""
 
 
-def mask(src):
+def blank_comments(src):
+    """The source with every comment replaced by spaces (newlines kept, string/char literals untouched): rule R0, comments are dropped."""
+    return mask(src, only_comments=True)
+
+
+def mask(src, only_comments=False):
     """Return a string of the same length where comments and the *contents* of string/char literals are
     replaced by spaces (newlines kept)."""
     out = list(src)
     n = len(src)
     i = 0
 
-    def blank(a, b):
+    def blank(a, b, comment=False):
+        if only_comments and not comment:
+            return
         for k in range(a, b):
             if out[k] != '\n':
                 out[k] = ' '
@@ -28,7 +35,7 @@ def mask(src):
         if c == '/' and i + 1 < n and src[i + 1] == '/':
             j = src.find('\n', i)
             j = n if j < 0 else j
-            blank(i, j)
+            blank(i, j, True)
             i = j
         elif c == '/' and i + 1 < n and src[i + 1] == '*':
             depth, j = 1, i + 2
@@ -41,7 +48,7 @@ def mask(src):
                     j += 2
                 else:
                     j += 1
-            blank(i, j)
+            blank(i, j, True)
             i = j
         elif c == '"' or (c in 'rb' and re.match(r'(?:br|r|b)#*"', src[i:i + 8]) and (i == 0 or not (src[i - 1].isalnum() or src[i - 1] == '_'))):
             m = re.match(r'(br|r|b)?(#*)"', src[i:i + 8])
